@@ -384,6 +384,7 @@ func (w *world) connect() {
 	sc := Wrap(fmt.Sprintf("srv%d", w.conn), &onceCloser{Channel: srv}, w.cfg.Yield, faults)
 	sc.Fragile = w.cfg.Chan == "fragile"
 	sc.ReuseRecv = w.cfg.Chan == "fragile" // one buffer for frames going out, one for records coming in
+	sc.LineLike = w.cfg.Chan == "fragile"  // and, like channel.Line, no line feeds inside a message
 	conn := w.conn
 	sc.onEvent = func(kind string, data []byte, err error) {
 		w.log(Event{Kind: kind, Conn: conn, Data: string(data), Err: errStr(err)})
@@ -586,6 +587,9 @@ func (w *world) exec(i int, st Step) {
 			var params any = map[string]int{"p": st.K}
 			if st.Out == "badparams" {
 				params = map[string]any{"p": st.K, "x": make(chan int)} // cannot be marshalled
+			} else if st.Out == "rawparams" {
+				// parameters the caller has encoded already, the way an indenting encoder writes them
+				params = json.RawMessage(fmt.Sprintf("{\n\t\"p\": %d\n}\n", st.K))
 			}
 			if st.Push == "notify" {
 				err := w.srv.Notify(ctx, MethodName("pnote", st.K), params)
